@@ -31,7 +31,16 @@ def headers(path):
 
 
 def run(patch, ids=None, keep=False, verbose=False):
-    h = headers(patch)
+    label = os.path.basename(patch)
+    if os.path.isdir(patch):
+        # a seeded change: <dir>/patch.diff + meta.json (checks_that_fire = the checks that must report it)
+        import json
+        meta = json.load(open(os.path.join(patch, "meta.json")))
+        label = "seeded/" + os.path.basename(patch.rstrip("/"))
+        h = {"kind": [meta.get("kind", "mutant")], "property": [",".join(meta.get("checks_that_fire", []))], "expect": []}
+        patch = os.path.join(patch, "patch.diff")
+    else:
+        h = headers(patch)
     kind = (h.get("kind") or ["mutant"])[0]
     if not ids:
         ids = [x.strip() for v in h.get("property", []) for x in v.split(",") if x.strip()]
@@ -50,17 +59,17 @@ def run(patch, ids=None, keep=False, verbose=False):
             r = subprocess.run([os.path.join(VERIF, "check"), pid], env=env, stdout=subprocess.PIPE, stderr=subprocess.STDOUT, text=True)
             fired = r.returncode == 1 and "VIOLATION property=%s" % pid in r.stdout
             if r.returncode not in (0, 1):
-                print("%s %s: check crashed rc=%d\n%s" % (os.path.basename(patch), pid, r.returncode, r.stdout[-3000:]))
+                print("%s %s: check crashed rc=%d\n%s" % (label, pid, r.returncode, r.stdout[-3000:]))
                 ok_all = False
                 continue
             if kind == "mutant":
                 good = fired and all(e in r.stdout for e in expects)
-                print("%-46s %s %s" % (os.path.basename(patch), pid, "caught" if good else ("MISSED" if not fired else "caught-but-key-mismatch")))
+                print("%-46s %s %s" % (label, pid, "caught" if good else ("MISSED" if not fired else "caught-but-key-mismatch")))
                 if not good or verbose:
                     print("\n".join("    " + l for l in r.stdout.splitlines() if "VIOLATION" in l or l.startswith("  ") or verbose)[:3000])
             else:
                 good = not fired
-                print("%-46s %s %s" % (os.path.basename(patch), pid, "silent" if good else "FALSE-ALARM"))
+                print("%-46s %s %s" % (label, pid, "silent" if good else "FALSE-ALARM"))
                 if not good:
                     print("\n".join("    " + l for l in r.stdout.splitlines() if "VIOLATION" in l or l.startswith("  "))[:3000])
             ok_all = ok_all and good
